@@ -3,6 +3,8 @@
 //!           documented precedence table demands; the REAL lexer's tokens of that text and the
 //!           Display of the REAL parser's tree   vs  Model.Pratt (raw / parse_top / display)
 //!   praw  : mutated / malformed token streams: accept-reject + Display  vs  Model.Pratt.parse_top
+//!   eval  : an expression + a context, rendered as `{{ (e) | probe }}` (the value) or `{{ e }}`
+//!           (printing)  vs  the reference evaluator Spec.ExprSem.eval (documentation semantics)
 use serde_json::json;
 use tera::{Context, Delimiters, Tera, Value};
 use tvh::*;
@@ -2342,7 +2344,7 @@ impl<'r> EvalGen<'r> {
         var(*self.rng.pick(&self.vars))
     }
     fn atom(&mut self) -> Sx {
-        if self.rng.chance(3, 5) { self.a_var() } else { self.konst() }
+        if self.rng.chance(1, 2) { self.a_var() } else { self.konst() }
     }
     fn index(&mut self, n: usize) -> Sx {
         match self.rng.below(8) {
@@ -2354,7 +2356,8 @@ impl<'r> EvalGen<'r> {
     }
     fn chain(&mut self, n: usize) -> Sx {
         let mut e = self.a_var();
-        let mut left = n.saturating_sub(1).max(1);
+        // at most three accessors: longer chains nearly always end in an error
+        let mut left = n.saturating_sub(1).max(1).min(1 + self.rng.below(3));
         while left > 0 {
             let opt = self.rng.chance(1, 3);
             if self.rng.chance(3, 5) {
@@ -2384,6 +2387,8 @@ impl<'r> EvalGen<'r> {
                     // and / or more often than their share
                     let o = if self.rng.chance(1, 4) {
                         if self.rng.chance(1, 2) { Bop::And } else { Bop::Or }
+                    } else if self.rng.chance(1, 4) {
+                        if self.rng.chance(1, 2) { Bop::Eq } else { Bop::Ne }
                     } else {
                         *self.rng.pick(&BOPS)
                     };
@@ -2415,7 +2420,7 @@ impl<'r> EvalGen<'r> {
                         _ => filt(self.expr(n - 1), "length"),
                     };
                 }
-                59..=62 => {
+                59..=60 => {
                     return if self.rng.chance(2, 3) {
                         throw_call()
                     } else {
@@ -2473,6 +2478,8 @@ fn random_eval_case(rng: &mut Rng, pool: &[(&'static str, Value, Option<bool>)])
                 "m" => n.starts_with("map"),
                 "xs" => n.starts_with("arr"),
                 "s" => n.starts_with("str"),
+                // small integers for the plain names, so that operators often succeed
+                "a" | "b" => n.parse::<i64>().is_ok(),
                 _ => true,
             }
         };
@@ -2485,7 +2492,8 @@ fn random_eval_case(rng: &mut Rng, pool: &[(&'static str, Value, Option<bool>)])
         }
         env.push((v.to_string(), pick.1.clone()));
     }
-    let n = 3 + rng.below(12);
+    // 3..14 nodes, small trees more often (large random trees nearly always end in an error)
+    let n = 3 + rng.below(12).min(rng.below(12));
     let mut g = EvalGen { rng, vars };
     (g.expr(n), env)
 }
@@ -2569,6 +2577,33 @@ fn replay(path: &std::path::Path) {
         .expect("no `text` in the case");
     println!("family: {}", j.get("family").and_then(|f| f.as_str()).unwrap_or("?"));
     println!("text: {text}");
+    if let Some(ctx) = case.get("ctx").and_then(|c| c.as_object()) {
+        // an eval case: the expression text + the context
+        fn rebuild(j: &serde_json::Value) -> Value {
+            if let Some(m) = j.get("map").and_then(|m| m.as_array()) {
+                let mut out = tera::Map::new();
+                for e in m {
+                    let k = e[0].as_str().expect("key");
+                    let (a, b) = (k.find('"').expect("string key"), k.rfind('"').expect("string key"));
+                    out.insert(k[a + 1..b].to_string().into(), rebuild(&e[1]));
+                }
+                return Value::from(out);
+            }
+            if let Some(a) = j.get("arr").and_then(|a| a.as_array()) {
+                return Value::from(a.iter().map(rebuild).collect::<Vec<_>>());
+            }
+            value_from_json(j)
+        }
+        let env: Vec<(String, Value)> = ctx.iter().map(|(k, v)| (k.clone(), rebuild(v))).collect();
+        let print = case.get("print").and_then(|p| p.as_bool()).unwrap_or(false);
+        let mut tera = Tera::default();
+        register_probe(&mut tera);
+        let r = run_eval(&tera, text, &env, print);
+        println!("mode: {}", if print { "print ({{ e }})" } else { "probe ({{ (e) | probe }})" });
+        println!("impl: {}", r.json(json_value));
+        println!("gallina: {}", r.gal(gal_value));
+        return;
+    }
     match lex_text(text) {
         Lexed::Toks(t) => println!("tokens: {}", gal_toks(&t)),
         Lexed::Reject(m) => println!("lexer rejects: {m}"),
